@@ -62,10 +62,23 @@ def case_s():
                     out.append({"op": "inject", "s": snd, "k": inj, "d": dd})
             out += [{"op": "unmute", "s": d}, {"op": "adv", "ms": 1000}]
             return out
+        def scenario_abandoned(args):
+            # a lookup is abandoned (destination off the air for all retransmissions); nothing is received meanwhile; later the
+            # destination is looked up again and several requests queue behind the second lookup
+            snd, dd, reqs, hear = args
+            d = (snd + dd) % n
+            out = [{"op": "mute", "s": d}, dict(reqs[0], s=snd, t="guc", d=dd), {"op": "adv", "ms": 12000}]
+            if hear:
+                out.append({"op": "inject", "s": snd, "k": hear, "d": dd})
+            out += [dict(r, s=snd, t="guc", d=dd) for r in reqs[1:]]
+            out += [{"op": "unmute", "s": d}, {"op": "adv", "ms": 1000}, {"op": "adv", "ms": 1000}]
+            return out
+        scen_ab = st.tuples(st.integers(0, n - 1), st.integers(1, n - 1), st.lists(req_s(n), min_size=3, max_size=4),
+                            st.sampled_from([None, None, "beacon", "dest_beacon"])).map(scenario_abandoned)
         scen = st.tuples(st.integers(0, n - 1), st.integers(1, n - 1), st.lists(req_s(n), min_size=1, max_size=3),
                          st.sampled_from([None, "beacon", "shb", "dest_shb", "dest_beacon"])).map(scenario)
         single = st.one_of(req_s(n), req_s(n), other).map(lambda x: [x])
-        steps = st.lists(st.one_of(single, single, single, scen), min_size=1, max_size=10).map(lambda ll: [x for l in ll for x in l][:16])
+        steps = st.lists(st.one_of(single, single, single, single, scen, scen, scen_ab), min_size=1, max_size=10).map(lambda ll: [x for l in ll for x in l][:20])
         return st.fixed_dictionaries({
             "n": st.just(n), "cbf": st.booleans(),
             "blat": st.one_of(st.sampled_from([413000000, -337000000, 0, 600000000, -840000000, 1000]), st.integers(-840000000, 840000000)),
@@ -118,6 +131,15 @@ def run_case(case):
         ls_retries = {}        # (sender,dest) -> retransmissions that happened while dest muted
         eth.mids = mids
 
+        pv_hist = [[] for _ in range(n)]
+
+        def refresh_positions():
+            # stations keep receiving position fixes: the ego position vector (and so the SO PV of what they send) carries the current time
+            for i_, s_ in enumerate(sts):
+                s_.set_position(clock.now, pos[i_][0], pos[i_][1], speed=(i_ * 700) - 900, heading=i_ * 900)
+                e_ = s_.gn.ego_position_vector
+                pv_hist[i_].append((e_.tst.msec, e_.latitude, e_.longitude, e_.s, e_.h, bool(e_.pai)))
+
         def pump():
             guard = 0
             while True:
@@ -143,7 +165,9 @@ def run_case(case):
                     for (snd, pkt) in eth.log[before:]:
                         _count_ls_retry(pkt, snd, eth, ls_retries, mids)
                     pump()
+                    refresh_positions()
                 clock.advance_to(target)
+                refresh_positions()
                 continue
             if op == "mute":
                 eth.muted.add(stp["s"])
@@ -198,7 +222,9 @@ def run_case(case):
                                  data=payload, length=len(payload))
             ego = snd.gn.ego_position_vector
             exp_base = {"sender": s, "step": step_i, "payload": payload, "port": port, "btp": stp["btp"], "second": stp["second"], "t": t,
-                        "shape": stp["shape"], "pv": (ego.tst.msec, ego.latitude, ego.longitude, ego.s, ego.h, bool(ego.pai))}
+                        "shape": stp["shape"], "pv": (ego.tst.msec, ego.latitude, ego.longitude, ego.s, ego.h, bool(ego.pai)),
+                        # a request queued behind a lookup is built when it is finally sent: any ego PV the sender had from the request on
+                        "pv_later": pv_hist[s], "pv_from": len(pv_hist[s])}
             n_log = len(eth.log)
             try:
                 snd.call(snd.btp.btp_data_request, req)
@@ -252,6 +278,7 @@ def run_case(case):
             for _ in range(12):
                 before = len(eth.log)
                 clock.advance(1.0)
+                refresh_positions()
                 for (sx, pkt) in eth.log[before:]:
                     _count_ls_retry(pkt, sx, eth, ls_retries, mids)
                 pump()
@@ -371,7 +398,7 @@ def _check_ind(ind, e, r, port):
     vs = []
     pv = ind.gn_source_position_vector
     got = (pv.tst.msec, pv.latitude, pv.longitude, pv.s, pv.h, bool(pv.pai))
-    if got != e["pv"]:
+    if got != e["pv"] and got not in e.get("pv_later", [])[e.get("pv_from", 0):]:
         vs.append(violation(ID, "C01/indication-source-pv-wrong", "station %d port %d step %d: source PV %r, sender's ego PV was %r" % (r, port, e["step"], got, e["pv"])))
     want_ht = {"shb": HeaderType.TSB, "gbc": HeaderType.GEOBROADCAST, "gac": HeaderType.GEOANYCAST, "guc": HeaderType.GEOUNICAST}[e["t"]]
     ptt = ind.gn_packet_transport_type
